@@ -342,6 +342,46 @@ def run(ctx):
             okpe = okpe and isinstance(n.slice, ast.Name) and n.slice.id == pe.params[1]
     ck.expect(okpe, 'C10-D1', pe.qual, 'encoder map built from (and cached by) the requested encode set',
               'percent_encode does not use the requested encode set', pe.loc())
+    # the per-byte map leaves the bytes outside the encode set as they are.  That is right for the bytes of ASCII characters
+    # (the probe in parse makes the codec map those to themselves); the bytes a multi-byte or stateful codec makes out of a non-ASCII
+    # character (iso2022_jp_2004: U+696C -> ESC $ ( P / /) must all be escaped, or they act as delimiters and escapes of the normal
+    # form when it is parsed again.  So no application of the map runs over `<text>.encode(...)` of the whole parameter unless a test
+    # on that text stands in front of it.
+    tparam = pe.params[0]
+    pm_pe = U.parents(pe.node)
+    n_map = 0
+    map_names = {t.id for st in walk_no_nested(pe.node) if isinstance(st, ast.Assign) for t in st.targets if isinstance(t, ast.Name)
+                 and any(isinstance(x, ast.Attribute) and x.attr == '__getitem__' for x in ast.walk(st.value))}
+    pdefs = U.local_defs(pe.node)
+    for comp in [x for x in walk_no_nested(pe.node) if isinstance(x, (ast.ListComp, ast.GeneratorExp))]:
+        if not (isinstance(comp.elt, ast.Call) and isinstance(comp.elt.func, ast.Name) and comp.elt.func.id in map_names):
+            continue
+        n_map += 1
+        it_ = comp.generators[0].iter
+        if isinstance(it_, ast.Name):
+            ds_ = [v for v, k, st in pdefs.get(it_.id, []) if k == 'assign']
+            it_ = ds_[0] if len(ds_) == 1 else it_
+        whole = isinstance(it_, ast.Call) and U.attr_name(it_) == 'encode' and isinstance(it_.func.value, ast.Name) and it_.func.value.id == tparam
+        tested = False
+        cur = comp
+        for a_ in U.ancestors(comp, pm_pe):
+            if isinstance(a_, (ast.If, ast.IfExp)) and any(isinstance(x, ast.Name) and x.id == tparam for x in ast.walk(a_.test)):
+                tested = True
+            for fld_ in ('body', 'orelse'):
+                blk = getattr(a_, fld_, None)
+                if isinstance(blk, list) and any(cur is x or any(cur is y for y in ast.walk(x)) for x in blk):
+                    i_ = next(i for i, x in enumerate(blk) if cur is x or any(cur is y for y in ast.walk(x)))
+                    for prev in blk[:i_]:
+                        if isinstance(prev, ast.If) and prev.body and isinstance(prev.body[-1], (ast.Return, ast.Raise)) \
+                                and any(isinstance(x, ast.Name) and x.id == tparam for x in ast.walk(prev.test)):
+                            tested = True
+            cur = a_
+        ck.expect(not whole or tested, 'C10-D3', pe.qual, 'the safe-set map is not applied to the bytes of non-ASCII characters',
+                  'every byte of `%s.encode(encoding)` goes through the map that leaves unreserved bytes raw: the ASCII-range bytes a '
+                  'multi-byte / stateful codec produces for a non-ASCII character stay unescaped (iso2022_jp_2004, U+696C: "/a\u696cb" -> '
+                  '"/a%%1B$(P//%%1B(Bb" -> "/a%%1B$(P/%%1B(Bb"): the normal form is not stable and its escapes change the bytes' % tparam, pe.loc(comp))
+    if n_map < 1:
+        raise AnalysisError('percent_encode: application of the per-byte map not found')
 
     # ------------------------------------------------------------------ D2
     url = repo.func(URL + ':URLInfo.url')
